@@ -3,7 +3,7 @@ from pyvc.bounded import run_samplers
 
 PROPERTY = "C01"
 LEVEL = "other"
-CONTRACT_MODULES = ["contracts.coordinates_c07", "contracts.coordinates_c13", "contracts.blocks_c08", "contracts.base_utils", "contracts.spline_c03", "contracts.vector_c03", "contracts.models_c03", "contracts.lsq_c02", "contracts.neighbors_c15", "contracts.exact_c01"]
+CONTRACT_MODULES = ["contracts.coordinates_c07", "contracts.coordinates_c13", "contracts.blocks_c08", "contracts.base_utils", "contracts.spline_c03", "contracts.vector_c03", "contracts.models_c03", "contracts.lsq_c02", "contracts.neighbors_c15", "contracts.compose_c06", "contracts.exact_c01"]
 TARGETS = [
     "contracts.exact_c01:lemma_spline_exact",
     "contracts.exact_c01:lemma_knn_exact",
@@ -15,6 +15,12 @@ TARGETS = [
     "verde.spline:predict_numpy",
     "verde.spline:jacobian_numpy",
     "verde.spline:Spline.jacobian",
+    # "... and any Chain or Vector assembled from them": the composition contracts (steps in order, each exactly once,
+    # prediction = sum over exactly the steps that can predict - also when steps share a label)
+    "verde.chain:Chain.fit",
+    "verde.chain:Chain.predict",
+    "verde.vector:Vector.fit",
+    "verde.vector:Vector.predict",
 ]
 MIN_OBLIGATIONS = {"quick": 10, "thorough": 10}
 EXPLANATION = (
